@@ -51,7 +51,7 @@ class Graph:
         for src, dst, lab in g.edges:
             lk = lkey(lab)
             self.labels[lk] = {"act": lab["act"], "args": lab["args"]}
-            pair = (lab["out"], ren[dst])
+            pair = (lab["out"], bool(lab["wopen"]), ren[dst])
             if pair not in self.out[ren[src]][lk]:
                 self.out[ren[src]][lk].append(pair)
 
@@ -63,12 +63,13 @@ class Graph:
         want = "refused" if (act == "Write" and st["mode"] == "r") else "ok"
 
         def rank(o):
-            out, dst = o
+            out, _, dst = o
             d = self.states[dst]
             bump = d["fileVersion"] != st["fileVersion"]
             natural = (act == "Write" and st["mode"] == "r+")
             return (out != want, bump != natural)
-        return sorted(opts, key=rank)[0]
+        best = sorted(opts, key=rank)[0]
+        return best[0], best[2]
 
     def to_json(self):
         return {"init": self.init, "states": self.states, "labels": self.labels,
@@ -282,6 +283,29 @@ def install_repack_standin():
     return log
 
 
+OPENED = []  # (absolute path, mode) of every h5py.File opened successfully in this process
+
+
+def install_open_spy():
+    """Observe every HDF5 handle that is opened (also the transient ones of helpers): h5py.File is replaced by a
+    subclass that records (path, mode) after a successful open.  geoh5py itself is not touched."""
+    import h5py
+    if getattr(h5py.File, "_c10_spy", False):
+        return
+    base = h5py.File
+
+    class SpyFile(base):  # pylint: disable=too-few-public-methods
+        _c10_spy = True
+
+        def __init__(self, name, mode="r", *args, **kwargs):
+            super().__init__(name, mode, *args, **kwargs)
+            if isinstance(name, (str, os.PathLike)):
+                OPENED.append((os.path.abspath(os.fspath(name)), str(mode)))
+
+    SpyFile.__name__ = "File"
+    h5py.File = SpyFile
+
+
 def _log_size(log):
     try:
         return os.path.getsize(log)
@@ -293,6 +317,7 @@ class Session:
     def __init__(self, fixture, digest0, graphs):
         from .pool import scratch
         self.base = scratch()
+        install_open_spy()
         self.log = install_repack_standin()
         # not directly in TMPDIR: Workspace.close repacks into tempfile.gettempdir()/<same name> (workspace.py:206)
         os.makedirs(os.path.join(self.base, "c10_files"), exist_ok=True)
@@ -523,7 +548,9 @@ def replay_sequence(item):
             if mode_before != st["mode"]:
                 raise MachineryError(f"harness lost track of the handle mode before step {i}: {mode_before} vs {st['mode']}")
             log0 = _log_size(ses.log)
+            del OPENED[:]
             out, extra = ses.do(step, st["live"])
+            wopen = any(p == os.path.abspath(ses.path) and m != "r" for p, m in OPENED)
             mode_after = ses.mode()
             changed, grain = ses.changed(mode_before, mode_after)
             repacked = _log_size(ses.log) > log0
@@ -539,9 +566,11 @@ def replay_sequence(item):
             # ---- look the observation up among the transitions of the specification
             def match(graph):
                 res = []
-                for o, dst in graph.out[state].get(lk, []):
+                for o, w, dst in graph.out[state].get(lk, []):
                     d = graph.states[dst]
                     if verdict != "skipped" and o != verdict:
+                        continue
+                    if w != wopen:
                         continue
                     if d["mode"] != mode_after:
                         continue
@@ -551,9 +580,8 @@ def replay_sequence(item):
                 return res
             hit = match(ideal)
             if step["act"] == "Helper" and extra.get("hmode") == "r+":
-                bad(f"helper-handle-writable:{step['args']['h']}",
-                    f"{where}: the helper holds a handle in mode r+ on the source file", i)
-                break
+                wopen = True
+                hit = []
             if hit:
                 if step["act"] == "Write" and st["mode"] == "r" and verdict == "refused":
                     stats["writes_refused"] += 1
@@ -571,8 +599,8 @@ def replay_sequence(item):
             ro = st["mode"] in ("r", "closed")
             detail = (f"{where}: outcome {out}, handle mode {mode_before} -> {mode_after}, file "
                       f"{'CHANGED' if changed else 'unchanged'} ({grain}); the specification allows "
-                      f"{sorted({(o, ideal.states[d]['mode'], ideal.states[d]['fileVersion'] != st['fileVersion']) for o, d in opts})}"
-                      f" as (outcome, mode, file changed)")
+                      f"{sorted({(o, ideal.states[d]['mode'], ideal.states[d]['fileVersion'] != st['fileVersion'], w) for o, w, d in opts})}"
+                      f" as (outcome, mode, file changed, writable handle opened); writable handle opened: {wopen}")
             if changed and ro:
                 if repacked and "RepackOnReadOnlyClose" in dev:
                     same = rf.content_digest(ses.path) == ses.digest if grain == "bytes" else None
@@ -582,7 +610,9 @@ def replay_sequence(item):
                         f"raised in memory by an earlier refused or memory-only call; " + detail, i)
                 else:
                     bad(f"file-changed-in-{'r' if st['mode'] == 'r' else 'closed'}:{_fam(step)}", detail, i)
-            elif mode_after != mode_before and all(ideal.states[d]["mode"] != mode_after for _, d in opts):
+            elif wopen and not any(w for _, w, _ in opts):
+                bad(f"source-opened-writable:{_fam(step)}", detail, i)
+            elif all(ideal.states[d]["mode"] != mode_after for _, _, d in opts):
                 bad(f"mode-switched:{_fam(step)}", detail, i)
             elif step["act"] == "Write" and st["mode"] == "r" and verdict == "ok" and not changed:
                 bad(f"write-silently-ignored:{_fam(step)}", detail, i)
